@@ -21,9 +21,24 @@ PNS = 'urn:p'
 cm.SYMS.setdefault('u', (TNS, 'u'))
 cm.SYMS.setdefault('y', (PNS, 'y'))
 cm.SYMS.setdefault('n', ('', 'n'))
+cm.SYMS.setdefault('v', (ONS, 'v'))          # a second name of urn:o (notQName o:z tells it from `o`)
 SYMS = cm.SYMS
-WILD_REPS = ['a', 'u', 'o', 'y', 'n']
+WILD_REPS = ['a', 'u', 'o', 'v', 'y', 'n']
 WILD_NS = ['##any', '##other', 'urn:o', 'urn:t', 'urn:t urn:o']
+# XSD 1.1 wildcards.  The namespace field of a wildcard leaf is a list of tokens: namespaces (as before),
+# `-x` = the name of symbol x is in notQName, `!ns` = ns is in notNamespace (then no namespace attribute)
+WILD_NS11 = ['##any -a', '##any -o', '##any -a -o', '##other -o', 'urn:t urn:o -a', '!urn:o', '!##local',
+             '!##targetNamespace', '!urn:o -a', 'urn:t -u']
+
+
+def wc_parts(s: str) -> tuple[list[str], list[str], list[str]]:
+    toks = s.split()
+    return ([t for t in toks if t[0] not in '-!'], [t[1:] for t in toks if t[0] == '-'],
+            [t[1:] for t in toks if t[0] == '!'])
+
+
+def ns_value(tok: str) -> str:
+    return '' if tok == '##local' else TNS if tok == '##targetNamespace' else tok
 
 ONS_SCHEMA = (f'<xs:schema xmlns:xs="{XSD}" targetNamespace="{ONS}" elementFormDefault="qualified">'
               '<xs:element name="z" type="xs:string"/></xs:schema>')
@@ -41,25 +56,66 @@ HEAD = (f'<xs:schema xmlns:xs="{XSD}" targetNamespace="{TNS}" xmlns:t="{TNS}" xm
 SUBST = {'h': ['s', 'd']}
 
 
-def to_xsd(ast: tuple) -> str:
+def to_xsd(ast: tuple, defs: Optional[list] = None, shared: Optional[dict] = None) -> str:
+    """`defs` collects the global <xs:group> definitions of the nodes marked as references
+    (('g', kind, lo, hi, items, 'ref'), the marking of lib_cm.with_refs); equal groups share one definition"""
     t = ast[0]
     if t == 'e':
         ref = 'o:z' if ast[1] == 'o' else 't:' + ast[1]
         return f'<xs:element ref="{ref}"{cm.occ_attrs(ast[2], ast[3])}/>'
     if t == 'a':
-        return f'<xs:any namespace="{ast[1]}" processContents="lax"{cm.occ_attrs(ast[2], ast[3])}/>'
-    return (f'<xs:{ast[1]}{cm.occ_attrs(ast[2], ast[3])}>' + ''.join(to_xsd(i) for i in ast[4]) + f'</xs:{ast[1]}>')
+        ns, notq, notns = wc_parts(ast[1])
+        attrs = f' namespace="{' '.join(ns)}"' if not notns else f' notNamespace="{' '.join(notns)}"'
+        if notq:
+            attrs += ' notQName="%s"' % ' '.join('o:' + SYMS[x][1] if SYMS[x][0] == ONS else 't:' + SYMS[x][1] for x in notq)
+        return f'<xs:any{attrs} processContents="lax"{cm.occ_attrs(ast[2], ast[3])}/>'
+    if len(ast) > 5 and ast[5] == 'ref' and defs is not None:
+        inner = f'<xs:{ast[1]}>' + ''.join(to_xsd(i, defs, shared) for i in ast[4]) + f'</xs:{ast[1]}>'
+        if shared is not None and inner in shared:
+            name = shared[inner]
+        else:
+            name = f'G{len(defs)}'
+            defs.append(f'<xs:group name="{name}">{inner}</xs:group>')
+            if shared is not None:
+                shared[inner] = name
+        return f'<xs:group ref="t:{name}"{cm.occ_attrs(ast[2], ast[3])}/>'
+    return (f'<xs:{ast[1]}{cm.occ_attrs(ast[2], ast[3])}>' + ''.join(to_xsd(i, defs, shared) for i in ast[4])
+            + f'</xs:{ast[1]}>')
+
+
+def expand_refs(ast: tuple) -> tuple:
+    """the particle tree that a marked AST is built into: a reference is a group (with the occurrences of the
+    reference) whose only item is the named group"""
+    if ast[0] != 'g':
+        return ast
+    items = [expand_refs(i) for i in ast[4]]
+    if len(ast) > 5 and ast[5] == 'ref':
+        return ('g', ast[1], ast[2], ast[3], [('g', ast[1], 1, 1, items)])
+    return ('g', ast[1], ast[2], ast[3], items)
+
+
+def has_refs(ast: tuple) -> bool:
+    return ast[0] == 'g' and ((len(ast) > 5 and ast[5] == 'ref') or any(has_refs(i) for i in ast[4]))
 
 
 def leaf_matches(leaf: tuple, sym: str) -> bool:
     if leaf[0] == 'e':
         return sym == leaf[1] or sym in SUBST.get(leaf[1], [])
     ns = SYMS[sym][0]
-    if leaf[1] == '##any':
+    nss, notq, notns = wc_parts(leaf[1])
+    if any(SYMS[x] == SYMS[sym] for x in notq):
+        return False
+    if notns:
+        return ns not in [ns_value(t) for t in notns]
+    if nss == ['##any']:
         return True
-    if leaf[1] == '##other':
+    if nss == ['##other']:
         return ns not in ('', TNS)
-    return ns in leaf[1].split()
+    return ns in [ns_value(t) for t in nss]
+
+
+# lib_cm's reference matcher is given the extended wildcard syntax (every check runs in its own process)
+cm.leaf_matches = leaf_matches
 
 
 def alphabet(d: tuple, b: tuple) -> list[str]:
@@ -192,9 +248,9 @@ def candidates(base: tuple, v11: bool) -> list[tuple[str, tuple]]:
                 out.append(('wildcard-to-elem' if ok else 'wildcard-to-foreign-elem',
                             put(base, p, ('e', n, node[2], node[3]))))
             out.append(('wildcard-to-2elems', put(base, p, [('e', 'a', node[2], node[3]), ('e', 'o', 0, 1)])))
-            for ns in WILD_NS:
+            for ns in WILD_NS + (WILD_NS11 if v11 else []):
                 if ns != node[1]:
-                    out.append(('wildcard-ns', put(base, p, ('a', ns, node[2], node[3]))))
+                    out.append(('wildcard-ns' if ns in WILD_NS else 'wildcard-ns11', put(base, p, ('a', ns, node[2], node[3]))))
     seen = set()
     res = []
     for tag, d in out:
@@ -215,7 +271,7 @@ def random_base(rng, v11: bool) -> tuple:
     def leaf() -> tuple:
         lo, hi = rng.choice(OCCS)
         if rng.random() < 0.15:
-            return ('a', rng.choice(WILD_NS), lo, hi)
+            return ('a', rng.choice(WILD_NS + WILD_NS11 if v11 and rng.random() < 0.5 else WILD_NS), lo, hi)
         return ('e', rng.choice(names), lo, hi)
 
     def group(d: int, top: bool) -> tuple:
@@ -228,7 +284,7 @@ def random_base(rng, v11: bool) -> tuple:
             occ = [(1, 1), (0, 1), (0, 2), (1, 2), (0, None)] if v11 else [(1, 1), (0, 1)]
             items = [('e', x) + rng.choice(occ) for x in ns]
             if v11 and rng.random() < 0.3:
-                items.append(('a', rng.choice(WILD_NS)) + rng.choice([(0, 1), (1, 1), (0, None)]))
+                items.append(('a', rng.choice(WILD_NS + WILD_NS11[:4])) + rng.choice([(0, 1), (1, 1), (0, None)]))
             return ('g', 'all', lo, hi, items)
         items = []
         for _ in range(rng.randint(1, max_items)):
@@ -246,13 +302,15 @@ def random_base(rng, v11: bool) -> tuple:
 
 def schema_text(bases: list[tuple], derived: list[list[tuple]]) -> str:
     body = []
+    defs: list = []
     for i, b in enumerate(bases):
-        body.append(f'<xs:complexType name="B{i}">{to_xsd(b)}</xs:complexType><xs:element name="eb{i}" type="t:B{i}"/>')
+        shared: dict = {}          # the base and its candidates share the named groups that they have in common
+        body.append(f'<xs:complexType name="B{i}">{to_xsd(b, defs, shared)}</xs:complexType><xs:element name="eb{i}" type="t:B{i}"/>')
         for j, d in enumerate(derived[i]):
             body.append(f'<xs:complexType name="D{i}_{j}"><xs:complexContent><xs:restriction base="t:B{i}">'
-                        f'{to_xsd(d)}</xs:restriction></xs:complexContent></xs:complexType>'
+                        f'{to_xsd(d, defs, shared)}</xs:restriction></xs:complexContent></xs:complexType>'
                         f'<xs:element name="ed{i}_{j}" type="t:D{i}_{j}"/>')
-    return HEAD + '\n'.join(body) + '</xs:schema>'
+    return HEAD + '\n'.join(defs + body) + '</xs:schema>'
 
 
 def build(bases: list[tuple], derived: list[list[tuple]], v11: bool, validation: str = 'lax'):
@@ -263,6 +321,92 @@ def build(bases: list[tuple], derived: list[list[tuple]], v11: bool, validation:
 
 def qn(name: Optional[str]) -> Optional[list[str]]:
     return None if name is None else cm.split_qname(name)
+
+
+# which zero-occurrence / empty-group clauses the tree under check implements: the pinned ones (part of
+# finding C14-F0) or the repaired ones of notes/fixes/C14-zero-occurs-and-empty-group.patch
+REPAIRED = {'on': False}
+
+
+def detect_repaired() -> bool:
+    """the witness of wildcard_zero_counterexample decides (any{0,0} against a required wildcard)"""
+    b = ('g', 'sequence', 1, 1, [('a', '##any', 1, 1)])
+    d = ('g', 'sequence', 1, 1, [('a', '##any', 0, 0)])
+    REPAIRED['on'] = bool(build([b], [[d]], False).all_errors)
+    return REPAIRED['on']
+
+
+REPAIRED_OC = {'on': False}
+OC_NS = ['##any', '##other', 'urn:o', '##any -a', 'urn:t urn:o']
+
+
+def oc_xml(oc: Optional[tuple]) -> str:
+    """oc = None | ('none',) | (mode, wildcard tokens)"""
+    if oc is None:
+        return ''
+    if oc[0] == 'none':
+        return '<xs:openContent mode="none"/>'
+    anyx = to_xsd(('a', oc[1], 1, 1)).replace(' processContents="lax"', ' processContents="lax"')
+    return f'<xs:openContent mode="{oc[0]}">{anyx}</xs:openContent>'
+
+
+def schema_text_oc(bases: list[tuple], derived: list[list[tuple]]) -> str:
+    """bases: [(model, oc)], derived: [[(model, oc)]]"""
+    body = []
+    for i, (b, ocb) in enumerate(bases):
+        body.append(f'<xs:complexType name="B{i}">{oc_xml(ocb)}{to_xsd(b)}</xs:complexType><xs:element name="eb{i}" type="t:B{i}"/>')
+        for j, (d, ocd) in enumerate(derived[i]):
+            body.append(f'<xs:complexType name="D{i}_{j}"><xs:complexContent><xs:restriction base="t:B{i}">'
+                        f'{oc_xml(ocd)}{to_xsd(d)}</xs:restriction></xs:complexContent></xs:complexType>'
+                        f'<xs:element name="ed{i}_{j}" type="t:D{i}_{j}"/>')
+    return HEAD + '\n'.join(body) + '</xs:schema>'
+
+
+def build_oc(bases: list, derived: list) -> Any:
+    import xmlschema
+    return xmlschema.XMLSchema11([schema_text_oc(bases, derived), ONS_SCHEMA], validation='lax')
+
+
+def detect_repaired_oc() -> bool:
+    """the witness of C14-F7 decides: an empty derived content group with a wider open content"""
+    b = (('g', 'sequence', 1, 1, [('e', 'a', 0, 1)]), ('interleave', 'urn:o'))
+    d = (('g', 'sequence', 1, 1, []), ('interleave', '##any'))
+    REPAIRED_OC['on'] = bool(build_oc([b], [[d]]).all_errors)
+    return REPAIRED_OC['on']
+
+
+def intro_oc(oc: Any, intro: 'PairIntrospector') -> Optional[dict]:
+    """the built XsdOpenContent → the JSON read by drv_c14"""
+    from harness.props.c16 import introspect as wc_introspect
+    if oc is None:
+        return None
+    out: dict = {'mode': oc.mode, 'w': None}
+    if oc.any_element is not None:
+        out['id'] = intro.oid(oc.any_element)
+        intro.info.append({'id': out['id'], 'pc': oc.any_element.process_contents})
+        out['w'] = wc_introspect(oc.any_element)
+    return out
+
+
+def oc_of_json(j: Optional[dict]) -> Optional[tuple]:
+    if j is None:
+        return None
+    if j['mode'] == 'none' or j['w'] is None:
+        return (j['mode'],)
+    return (j['mode'], ast_of_json({'t': 'a', 'w': j['w'], 'lo': 1, 'hi': 1})[1])
+
+
+def canon_oc(oc: Optional[tuple]) -> Optional[tuple]:
+    if oc is None or len(oc) == 1:
+        return oc
+    return (oc[0], canon_ns(('a', oc[1], 1, 1))[1])
+
+
+def ref_accepts_t(ast: tuple, oc: Optional[tuple], word: list[str]) -> bool:
+    """reference language of a type: content model under its open content"""
+    if oc is None or oc[0] == 'none':
+        return cm.ref_accepts(ast, word)
+    return cm.ref_accepts_oc(ast, word, oc)
 
 
 class PairIntrospector:
@@ -302,10 +446,13 @@ class PairIntrospector:
         hi = p.max_occurs
         if isinstance(p, XsdGroup):
             if not known:
-                self.info.append({'id': pid, 'gref': p.ref is not None, 'hasParent': p.parent is not None,
-                                  'mixed': bool(p.mixed)})
+                inf = {'id': pid, 'gref': p.ref is not None, 'hasParent': p.parent is not None,
+                       'mixed': bool(p.mixed)}
+                if p.name is not None:
+                    inf['gname'] = qn(p.name)
+                self.info.append(inf)
             return {'t': 'g', 'id': pid, 'k': p.model, 'lo': p.min_occurs, 'hi': hi,
-                    'items': [self.walk(i) for i in p.content]}
+                    'items': [self.walk(i) for i in p]}   # the items the restriction rules iterate (for a reference: the named group)
         if isinstance(p, XsdAnyElement):
             if not known:
                 self.info.append({'id': pid, 'pc': p.process_contents})
@@ -329,7 +476,7 @@ class PairIntrospector:
         return {'t': 'e', 'id': pid, 'lo': p.min_occurs, 'hi': hi, 'names': names}
 
     def request(self, v11: bool, sig: list[str], fuel: int, words: Optional[list[list[str]]] = None) -> dict:
-        r = {'op': 'pair', 'v11': v11, 'n': len(self.objs), 'd': self.d, 'b': self.b, 'info': self.info,
+        r = {'op': 'pair', 'v11': v11, 'repaired': REPAIRED['on'], 'repairedOC': REPAIRED_OC['on'], 'n': len(self.objs), 'd': self.d, 'b': self.b, 'info': self.info,
              'derivOk': self.deriv_ok, 'sig': [list(SYMS[s]) for s in sig], 'fuel': fuel}
         if words is not None:
             r['words'] = [cm.word_json(w) for w in words]
@@ -343,14 +490,23 @@ def ast_of_json(j: dict) -> tuple:
         loc = j['names'][0][1]
         return ('e', 'o' if j['names'][0][0] == ONS else loc, j['lo'], j['hi'])
     w = j['w']
-    ns = '##any' if w['ns'] == 'any' else '##other' if w['ns'] == 'other' else ' '.join(w['ns'])
-    return ('a', ns, j['lo'], j['hi'])
+    toks = ['##any'] if w['ns'] == 'any' else ['##other'] if w['ns'] == 'other' else list(w['ns'])
+    if w.get('notNs'):
+        toks = ['!' + ('##local' if x == '' else x) for x in w['notNs']]
+    toks += ['-' + sym_of_qn(q) for q in w.get('notQ', [])]
+    return ('a', ' '.join(toks), j['lo'], j['hi'])
+
+
+def canon_tok(t: str) -> str:
+    pre = t[0] if t[0] in '-!' else ''
+    body = t[len(pre):]
+    return pre + (ns_value(body) if pre != '-' else body)
 
 
 def canon_ns(ast: tuple) -> tuple:
-    """wildcard namespace lists compared as sets"""
+    """wildcard tokens compared as sets (##local / ##targetNamespace resolved)"""
     if ast[0] == 'a':
-        return ('a', ' '.join(sorted(ast[1].split())), ast[2], ast[3])
+        return ('a', ' '.join(sorted({canon_tok(t) for t in ast[1].split()})), ast[2], ast[3])
     if ast[0] == 'g':
         return ('g', ast[1], ast[2], ast[3], [canon_ns(i) for i in ast[4]])
     return ast
